@@ -74,6 +74,13 @@ fn be16(v: &mut Vec<u8>, x: u16) {
 }
 
 pub fn build(glyphs: &[Glyph]) -> Vec<u8> {
+    build_with_maxp(glyphs, &[8, 2, 64, 16, 2, 4, 8, 4, 2, 32, 64, 4, 4])
+}
+
+/// `maxp13` = maxPoints, maxContours, maxCompositePoints, maxCompositeContours, maxZones, maxTwilightPoints,
+/// maxStorage, maxFunctionDefs, maxInstructionDefs, maxStackElements, maxSizeOfInstructions,
+/// maxComponentElements, maxComponentDepth.
+pub fn build_with_maxp(glyphs: &[Glyph], maxp13: &[u16; 13]) -> Vec<u8> {
     let n = glyphs.len() as u16;
     let mut b = GlyfLocaBuilder::new();
     for g in glyphs {
@@ -98,8 +105,8 @@ pub fn build(glyphs: &[Glyph]) -> Vec<u8> {
     let mut maxp = vec![];
     maxp.extend_from_slice(&0x0001_0000u32.to_be_bytes());
     be16(&mut maxp, n);
-    for x in [8u16, 2, 64, 16, 2, 4, 8, 4, 2, 32, 64, 4, 4] {
-        be16(&mut maxp, x);
+    for x in maxp13 {
+        be16(&mut maxp, *x);
     }
     let mut hmtx = vec![];
     for _ in 0..n {
